@@ -19,6 +19,14 @@ var (
 	Bcast4    = netip.MustParseAddr("255.255.255.255")
 	AllNodes  = netip.MustParseAddr("ff02::1")
 	routerLLA = [16]byte{0xfe, 0x80, 0, 0, 0, 0, 0, 0, 0, 0, 0, 0, 0, 0, 0xfe, 0}
+	// IPv6 addresses that are neither link-local unicast nor global unicast test addresses of the Universe
+	otherV6 = map[string]netip.Addr{
+		"unspec6": netip.MustParseAddr("::"),
+		"loop6":   netip.MustParseAddr("::1"),
+		"mc5":     netip.MustParseAddr("ff05::2"),
+		"map4":    netip.MustParseAddr("::ffff:192.168.0.77"),
+		"ula1":    netip.MustParseAddr("fd00:1234::1"),
+	}
 )
 
 // HuntMAC maps a name of the hunt specifications to a MAC (nil for "nilmac").
@@ -65,6 +73,9 @@ func (u *Universe) HuntIP(name string) netip.Addr {
 	case "hostlla":
 		return HostLLA
 	}
+	if a, ok := otherV6[name]; ok {
+		return a
+	}
 	if strings.HasPrefix(name, "ll") {
 		k, err := strconv.Atoi(name[2:])
 		if err == nil && k > 0 && k < 250 {
@@ -95,6 +106,11 @@ func (u *Universe) HuntIPName(ip netip.Addr) string {
 		return "allnodes"
 	case ip == HostLLA:
 		return "hostlla"
+	}
+	for n, a := range otherV6 {
+		if a == ip {
+			return n
+		}
 	}
 	if ip.Is4() {
 		b := ip.As4()
